@@ -432,6 +432,7 @@ def run_val(cx, derived=True):
     valhex.run_hex(run)
     from checks import valbin; valbin.run_bin(run)
     from checks import valinst; valinst.run_inst(run)
+    from checks import valinet; valinet.run_inet(run)
     return run
 
 
